@@ -15,6 +15,10 @@ Decides:
  H help/version        when both the help and the version flag are on the line the answer is help, whichever is written first: the
                         two lookups are sequential, not alternatives decided by position (shared with C10).
  P positionals skip     take_positional_word considers Word / PosWord only and skips every named item.
+ O own items     only the primitive consumers (take_flag / take_arg / take_cmd / take_positional_word, `any`) call State::remove or
+                        State::get: no parser peeks at or removes the neighbour of its own item (who-may-call registry).
+ L repetition    whether a repetition goes round again depends only on what the inner parser returned and on State::len(), never on the
+                        position of the consumed item or on the item next to it.
 Does not decide: invariance of the outcome under all permutations (value-level)."""
 from core import *
 from dataflow import *
@@ -24,7 +28,7 @@ import consumers, c07, c08, c09
 LEVEL = 'other'
 EXPLANATION = __doc__
 ASSUMPTIONS = []
-FLOORS = {'S.search': 18, 'I.index-opaque': 2, 'M.matcher': 8, 'C.command-scope': 1, 'T.separator': 2, 'H.help-version-order': 3}
+FLOORS = {'S.search': 18, 'I.index-opaque': 2, 'M.matcher': 8, 'C.command-scope': 1, 'T.separator': 2, 'H.help-version-order': 3, 'O.own-items': 10, 'L.repetition': 3}
 
 def run(ctx):
     cfgs = ['none', 'all']
